@@ -46,6 +46,13 @@ func (r *concRewriter) isWaitGroup(e ast.Expr) bool {
 	return ok && n.Obj().Pkg() != nil && n.Obj().Pkg().Path() == "sync" && n.Obj().Name() == "WaitGroup"
 }
 
+func (r *concRewriter) isAtomicPkg(id *ast.Ident) bool {
+	if pn, ok := r.info.Uses[id].(*types.PkgName); ok {
+		return pn.Imported().Path() == "sync/atomic"
+	}
+	return false
+}
+
 // rewritable reports whether n is a construct the shim takes over.
 func (r *concRewriter) rewritable(n ast.Node) bool {
 	switch x := n.(type) {
@@ -68,6 +75,11 @@ func (r *concRewriter) rewritable(n ast.Node) bool {
 				return len(x.Args) == 1
 			case "len":
 				return len(x.Args) == 1 && r.isChan(x.Args[0])
+			}
+		}
+		if sel, ok := x.Fun.(*ast.SelectorExpr); ok {
+			if id, ok := sel.X.(*ast.Ident); ok && r.isAtomicPkg(id) {
+				return true
 			}
 		}
 		if sel, ok := x.Fun.(*ast.SelectorExpr); ok && r.isWaitGroup(sel.X) {
@@ -125,8 +137,20 @@ func (r *concRewriter) rewrite(n ast.Node) string {
 		if len(x.Call.Args) == 0 {
 			return "mc.Go(func() { " + r.text(x.Call) + " })"
 		}
-		r.errs = append(r.errs, fmt.Sprintf("%s: go statement with arguments", r.fset.Position(x.Pos())))
-		return r.text(x.Call)
+		// arguments are evaluated at the go statement, the call runs in the new goroutine
+		var sb strings.Builder
+		var names []string
+		sb.WriteString("{\n")
+		for i, a := range x.Call.Args {
+			n := fmt.Sprintf("mcgoarg%d__", i)
+			names = append(names, n)
+			sb.WriteString(n + " := " + r.text(a) + "\n")
+		}
+		if x.Call.Ellipsis.IsValid() && len(names) > 0 {
+			names[len(names)-1] += "..."
+		}
+		sb.WriteString("mc.Go(func() { (" + r.text(x.Call.Fun) + ")(" + strings.Join(names, ", ") + ") })\n}")
+		return sb.String()
 	case *ast.RangeStmt:
 		r.counts["range-chan"]++
 		key := "_"
@@ -227,6 +251,22 @@ func (r *concRewriter) rewrite(n ast.Node) string {
 			}
 		}
 		sel := x.Fun.(*ast.SelectorExpr)
+		if id, ok := sel.X.(*ast.Ident); ok && r.isAtomicPkg(id) {
+			// a package-level sync/atomic function: a scheduling point, then the real operation
+			r.counts["atomic"]++
+			var args []string
+			for _, a := range x.Args {
+				args = append(args, r.text(a))
+			}
+			call := r.text(sel.X) + "." + sel.Sel.Name + "(" + strings.Join(args, ", ") + ")"
+			if tv, ok := r.info.Types[x]; ok {
+				if tup, isTuple := tv.Type.(*types.Tuple); isTuple && tup.Len() == 0 {
+					return "mc.Atomic0(func() { " + call + " })"
+				}
+				return "mc.Atomic(func() " + types.TypeString(tv.Type, func(p *types.Package) string { return p.Name() }) + " { return " + call + " })"
+			}
+			return "mc.Atomic0(func() { " + call + " })"
+		}
 		recv := r.text(sel.X)
 		if tv, ok := r.info.Types[sel.X]; ok {
 			if _, isPtr := tv.Type.(*types.Pointer); !isPtr {
@@ -257,7 +297,7 @@ func instrumentFile(cp *checkedPkg, name string, path string) (string, map[strin
 	// uninstrumentable imports
 	for _, im := range f.Imports {
 		switch strings.Trim(im.Path.Value, `"`) {
-		case "time", "sync/atomic", "context", "os/signal":
+		case "time", "context", "os/signal":
 			r.errs = append(r.errs, "import of "+im.Path.Value)
 		}
 	}
